@@ -21,6 +21,10 @@ CHECKS["C10"] = dict(cat="model_checking", design="DESIGN.md §4 C10",
    text="EnumDef.tla states exactness of enum detection over an abstract package tree (which types are enums, member sets with exact values and comments, two-sided iota rule). EnumModel.tla models the scope walk in name order and setIsIota (unstable sort as nondeterminism) and TLC checks it against EnumDef for every block of <=3/4 constants over values -1..3, exporting the blocks. Each block is rendered as real Go (random style: iota, offsets, blanks, single-line, multi-name), decorated with a same-named type in a sub-package, string/bool/float enums, opt-outs, labels and foreign-typed constants; the real analysis runs on it and TLC judges what it reported against EnumDef.",
    note="Trusted: TLC; the synthesiser (its rendering is re-checked against go/types for every constant on every run). Universe: the analysed package tree; exhaustive over the integer core of one type up to MaxConsts, decorations are random.",
    tech="TLA+ definition + model (EnumDef/EnumModel.tla) checked by TLC, TLC-enumerated constant blocks rendered to Go, verdict-style trace validation (TraceEnums.tla) of the real analysis")
+CHECKS["C11"] = dict(cat="model_checking", design="DESIGN.md §4 C11",
+   text="UnionDef.tla states exactness of union detection (an interface is a union iff a non-interface named type of its own package has a value-receiver method set implementing it; members and Implements lists exact and in name order). UnionModel.tla models fetchPkgUnions and setImplements with the range over the unions map as explicit nondeterminism; TLC checks it against UnionDef for every assignment of marker methods and receivers in scope and exports the cores. Each core becomes a real package tree (same names in a sub-package, cross-package implementer, unions reached as field / element / map value / alias / named slice / top-level only); TLC judges what the real analysis reported for every interface and every reachable struct node.",
+   note="Trusted: TLC; the synthesiser (method sets re-checked against go/types every run). Scope: 2 interfaces x subsets of 2 marker methods, 2-3 types; reach positions and sub-package content are random decorations.",
+   tech="TLA+ definition + model (UnionDef/UnionModel.tla) checked by TLC, TLC-enumerated cores rendered to Go, verdict-style trace validation (TraceUnions.tla) of the real analysis")
 NOT_APPLICABLE = {}
 ALL = ["C%02d" % i for i in range(1, 21)]
 
